@@ -45,6 +45,18 @@ func (h *vfE2H) after(tps ...*vfE2Topic) {
 	if !h.settle() {
 		return
 	}
+	for _, cn := range h.conns {
+		if cn.subbed && !cn.dead && cn.sample > 0 {
+			// a sampling pump decides (rand) between taking a message off the queue and either
+			// dropping it or registering it in flight: give that window time to close before
+			// a message that is nowhere is declared sampled out
+			time.Sleep(3 * time.Millisecond)
+			if !h.settle() {
+				return
+			}
+			break
+		}
+	}
 	h.observe()
 	h.nOps++
 	for _, tp := range tps {
@@ -392,6 +404,11 @@ func (h *vfE2H) answered(cn *vfE2Conn, ch *vfE2Chan, seq int, ok bool, what stri
 	if ok {
 		delete(ch.holder, seq)
 		cn.out--
+		if what == "FIN" {
+			cn.nFin++
+		} else {
+			cn.nReq++
+		}
 	}
 }
 
@@ -650,6 +667,7 @@ func (h *vfE2H) doPauseTopic(t int, pause bool) {
 	path := "/topic/pause"
 	if !pause {
 		path = "/topic/unpause"
+		h.parkEphemeral(tp.sortedChans()) // the backlog is about to be fanned out
 	}
 	code, _ := h.httpPost(fmt.Sprintf("%s?topic=%s", path, tp.name), nil)
 	if code != 200 {
@@ -1004,6 +1022,12 @@ func (h *vfE2H) genOp(malformed bool) {
 				v = strconv.FormatInt(h.cfg.maxrdy, 10)
 			case 7:
 				v = ""
+			case 8:
+				if r.Intn(6) == 0 {
+					v = []string{strconv.FormatInt(h.cfg.maxrdy+1, 10), "9223372036854775808", "18446744073709551621", "-1", "1x", "99999999999999999999999"}[r.Intn(6)]
+				} else {
+					v = "1"
+				}
 			default:
 				v = strconv.FormatInt(int64(r.Intn(int(h.cfg.maxrdy)+1)), 10)
 				if h.cfg.maxrdy > 20 {
